@@ -246,10 +246,15 @@ func sliceElemCleared(f *ssa.Function, rb *ssa.BasicBlock, ri int, tgt, hdr ssa.
 			}
 		}
 	}
-	// loops containing a sanitiser: mark header
+	// loops containing a sanitiser: mark header – provided the clearing loop
+	// covers the elements that are about to be read: it starts at 0 and runs up
+	// to the value that becomes the slice's new length
 	for _, b := range f.Blocks {
 		for _, s := range b.Succs {
 			if s.Dominates(b) { // back edge b -> s
+				if !clearLoopCoversNewLen(f, s, hdr) {
+					continue
+				}
 				body := map[*ssa.BasicBlock]bool{s: true}
 				stack := []*ssa.BasicBlock{b}
 				for len(stack) > 0 {
@@ -707,4 +712,129 @@ func rulePresenceFlag(c *Ctx) {
 			"the descriptor flags explicit presence for exactly the pointer and null codecs (plain fields have no presence)", nil)
 	}
 	c.Floor("T.presence", 26)
+}
+
+// ruleMapSlot: the value slot handed out by mapassign belongs to a map that
+// may already hold the key (re-used target): every path from mapassign to a
+// success return must either read the value into the slot or clear it.
+func ruleMapSlot(c *Ctx) {
+	p := c.P
+	n := 0
+	for _, f := range p.inputFuncs() {
+		name := ssaFuncName(f)
+		for _, b := range f.Blocks {
+			for i, in := range b.Instrs {
+				call, ok := in.(*ssa.Call)
+				if !ok {
+					continue
+				}
+				cal := call.Common().StaticCallee()
+				if cal == nil || cal.Name() != "mapassign" {
+					continue
+				}
+				n++
+				slot := ssa.Value(call)
+				isSan := func(in2 ssa.Instruction) bool {
+					if ptr, ok := isClearCall(in2); ok && ptr == slot {
+						return true
+					}
+					if tgt, _, ok := codecReadTarget(in2); ok && tgt == slot {
+						return true
+					}
+					return false
+				}
+				// search for a path from just after the call to a success return that avoids sanitisers
+				bad := false
+				seen := map[*ssa.BasicBlock]bool{}
+				var visit func(bb *ssa.BasicBlock, from int)
+				visit = func(bb *ssa.BasicBlock, from int) {
+					for _, in2 := range bb.Instrs[from:] {
+						if isSan(in2) {
+							return
+						}
+						if r, ok := in2.(*ssa.Return); ok {
+							if len(r.Results) > 0 && !isFailureReturnLoose(f, r) {
+								bad = true
+							}
+							return
+						}
+					}
+					for _, s := range bb.Succs {
+						if !seen[s] {
+							seen[s] = true
+							visit(s, 0)
+						}
+					}
+				}
+				visit(b, i+1)
+				c.Oblige("X.clear.mapslot", !bad, call.Pos(), name, "map value slot is written or cleared on every path",
+					"mapassign returns the existing slot when the key is already in the (re-used) map: an entry without a value must reset the slot to the zero value, otherwise the old value (e.g. a non-nil pointer for an encoded nil) survives", nil)
+			}
+		}
+	}
+	c.Floor("X.clear.mapslot", 1)
+}
+
+// isFailureReturnLoose: returns an error built by fmt.Errorf/errors.New, or is
+// dominated by err != nil.
+func isFailureReturnLoose(f *ssa.Function, r *ssa.Return) bool {
+	e := r.Results[len(r.Results)-1]
+	if call, ok := e.(*ssa.Call); ok {
+		if cal := call.Common().StaticCallee(); cal != nil && (cal.String() == "fmt.Errorf" || cal.String() == "errors.New") {
+			return true
+		}
+	}
+	return isFailureReturn(f, r)
+}
+
+// clearLoopCoversNewLen: the loop with the given header iterates i = 0 .. N-1
+// where N is the value stored into hdr.Len by the function.
+func clearLoopCoversNewLen(f *ssa.Function, header *ssa.BasicBlock, hdr ssa.Value) bool {
+	// values stored into hdr.Len
+	var newLens []ssa.Value
+	for _, b := range f.Blocks {
+		for _, in := range b.Instrs {
+			if st, ok := in.(*ssa.Store); ok {
+				if fa, ok := st.Addr.(*ssa.FieldAddr); ok && fa.X == hdr && fieldName(fa) == "Len" {
+					newLens = append(newLens, stripConv(st.Val))
+				}
+			}
+		}
+	}
+	iff, ok := header.Instrs[len(header.Instrs)-1].(*ssa.If)
+	if !ok {
+		// rotated loop: the test may sit in the latch; look for any If in the loop comparing the phi
+		return false
+	}
+	cmp, ok := iff.Cond.(*ssa.BinOp)
+	if !ok || cmp.Op != token.LSS {
+		return false
+	}
+	phi, ok := cmp.X.(*ssa.Phi)
+	if !ok || phi.Block() != header {
+		return false
+	}
+	// initial value 0 on the entry edge, +1 on the back edge
+	zeroInit := false
+	for i, e := range phi.Edges {
+		pred := header.Preds[i]
+		if header.Dominates(pred) {
+			continue
+		}
+		if cst, ok := e.(*ssa.Const); ok {
+			if k, ok := constBig(cst); ok && k.Sign() == 0 {
+				zeroInit = true
+			}
+		}
+	}
+	if !zeroInit {
+		return false
+	}
+	bound := stripConv(cmp.Y)
+	for _, nl := range newLens {
+		if nl == bound {
+			return true
+		}
+	}
+	return false
 }
